@@ -31,7 +31,7 @@ OPS = {
     "C15": (["C15_AlgoMeetsSpec"], [], ["C15_IterMeetsSpec"], []),
     "C17": (["C17_LinksPointBack"], [], [],
             ["C17_StoreClosed", "C17_StoreStaysClosed", "C17_WrittenBeforeReturned", "C17_Recoverable", "C17_StillRecoverable",
-             "C17_PublishResult", "C17_FailedWriteLeavesLog"]),
+             "C17_PublishResult", "C17_FailedWriteLeavesLog", "C17_FailedPublish"]),
     "C18": ([], [], [], ["C18_NoClearLinks", "C18_SameKeyRecovers", "C18_OtherKeyGetsNothing", "C18_AuditedSomething",
                          "C06_AppendedVerifies", "C06_ValidJoinSucceeds"]),
     "C16": ([], ["C16_Bounded"], [], ["C16_NoPanic", "C16_LastN"]),
